@@ -549,6 +549,10 @@ class Interp:
                     lo = None
                 return ("slice", base, lo, hi)
             idx = self.eval(sl, env)
+            if is_const(idx) and isinstance(idx[1], int) \
+                    and base[0] not in ("tuple", "list", "dict"):
+                self.path.effects.append(("index-eval", base, idx,
+                                          len(self.path.order), node))
             if base[0] in ("tuple", "list") and is_const(idx) \
                     and isinstance(idx[1], int):
                 try:
@@ -676,9 +680,9 @@ class Interp:
         callees = self.P.resolve_call(fi, node) if self.depth == 0 or True \
             else []
         if self._noreturn(fi, node):
-            tgt = [c.fn.qualname for c in callees if c.kind == "repo"]
             self.path.effects.append(("noreturn-call", ft, args, node))
-            raise _Raise("noreturn:" + ",".join(sorted(tgt)), args, node)
+            nm = ft[2] if ft[0] == "attr" else fmt(ft)
+            raise _Raise("noreturn:" + nm, args, node)
         # inlining
         if self.depth < self.max_inline:
             repo = [c for c in callees if c.kind == "repo"]
@@ -938,6 +942,18 @@ class Interp:
             return
         except _Continue:
             pass
+        # make the loop-carried state observable: the value of the loop test
+        # after one iteration
+        self.path.effects.append(("store", ("free", "<loop test after one "
+                                            "iteration>"),
+                                  self._test_term(st.test, env), st))
+
+    def _test_term(self, test, env):
+        if isinstance(test, ast.UnaryOp) and isinstance(test.op, ast.Not):
+            return ("unop", "Not", self._test_term(test.operand, env))
+        if isinstance(test, (ast.Name, ast.Attribute, ast.Subscript)):
+            return self.eval(test, env)
+        return ("free", src(test))
 
     def _try(self, st, env):
         n_eff = len(self.path.effects)
@@ -968,32 +984,41 @@ class Interp:
             pass
         self._block(st.finalbody, env)
 
+    def _handler_names(self, h):
+        if h.type is None:
+            return ["BaseException"]
+        types = h.type.elts if isinstance(h.type, ast.Tuple) else [h.type]
+        return [src(t).split(".")[-1] for t in types]
+
     def _try_body(self, st, env):
         """Statements of a try body: every effectful call may raise into one
-        of the handlers (atom 'raises(call)')."""
+        of the handlers (atom 'raises(call, class)')."""
         for s in st.body:
             before = len(self.path.effects)
             saved = dict(env)
-            self._stmt(s, env)
+            pending = None
+            try:
+                self._stmt(s, env)
+            except (_Return, _Raise, _Break, _Continue) as ctl:
+                pending = ctl
             effs = self.path.effects[before:]
             for j, eff in enumerate(effs):
                 if eff[0] == "call":
-                    for i, h in enumerate(st.handlers):
-                        cls = src(h.type) if h.type is not None \
-                            else "BaseException"
-                        cls = cls.split(".")[-1]
-                        if self.decide(("raises", eff[1], cls)):
-                            # the statement did not complete: undo its
-                            # bindings and the effects after the raising call
-                            env.clear()
-                            env.update(saved)
-                            del self.path.effects[before + j + 1:]
-                            raise _Raise("caught:" + cls, (eff[1],), s)
+                    for h in st.handlers:
+                        for cls in self._handler_names(h):
+                            if self.decide(("raises", eff[1], cls)):
+                                # the statement did not complete: undo its
+                                # bindings and the effects after the call
+                                env.clear()
+                                env.update(saved)
+                                del self.path.effects[before + j + 1:]
+                                raise _Raise("caught:" + cls, (eff[1],), s)
+            if pending is not None:
+                raise pending
 
     def _handler_matches(self, h, r):
         if r.cls.startswith("caught:"):
-            return (src(h.type) if h.type is not None
-                    else "BaseException").split(".")[-1] == r.cls[7:]
+            return r.cls[7:] in self._handler_names(h)
         if h.type is None:
             return True
         types = h.type.elts if isinstance(h.type, ast.Tuple) else [h.type]
